@@ -72,7 +72,7 @@ def solve_and_judge(case, which, in_situ=True):
             worst = max(worst, d)
     rec.count('models.judged')
     for opt, on in case.get('build_opts', {}).items():
-        if on and opt not in ('codes', 'order_seed'):
+        if on and opt not in ('codes', 'order_seed', 'mutate_returned_lists'):
             rec.count('models.judged.with_' + opt)
     if sum(1 for z in spec['zones'] if z['kind'] == 'federation' and sum(1 for c in z['countries'] if c.get('cap')) >= 2):
         rec.count('models.judged.with_capitalists_in_several_regions_of_a_zone')
@@ -83,6 +83,8 @@ def solve_and_judge(case, which, in_situ=True):
         rec.count('models.judged.with_prefix_related_market_codes_and_household_in_both')
     if any(z.get('cross_buy') for z in spec['zones']):
         rec.count('models.judged.with_households_buying_in_another_regions_market')
+    if getattr(b, 'lists_mutated', False):
+        rec.count('models.judged.with_getter_results_emptied_by_the_caller')
     if getattr(b, 'predeclared_lag', 0):
         rec.count('models.judged.with_holder_declaring_its_own_lagged_deposits')
     if getattr(b, 'weightings_reused', 0):
